@@ -139,9 +139,11 @@ class UCGEInitialize(UCGInitialize):
                 ::2
             ]  # pylint: disable=protected-access
         if ucg.dont_carry:
-            ucg.controls.reverse()
+            # bit i of the carried diagonal belongs to control qubit ucg.controls[i];
+            # in the parent index that qubit is bit (qubit - first control of the level)
             size_required = len(ucg.dont_carry) + len(ucg.controls)
-            ctrl_qc = [self.num_qubits - 1 - x for x in ucg.controls]
+            first_control = self.num_qubits - size_required
+            ctrl_qc = [x - first_control for x in ucg.controls]
             unitary_diagonal = np.diag(diagonal)
             qc = qiskit.QuantumCircuit(size_required)
             qc.unitary(unitary_diagonal, ctrl_qc)
